@@ -92,26 +92,8 @@ func c06(p *Prog, r *Report) {
 	r.Count("functions_analysed", 1)
 	r.List("functions", shortName(fn))
 	const req = "param:1"
-	sigReq := reqSignature("ecdsa.Verify(request key, SHA-384(request contents), r, s)=true", tP384, req)
+	sigReq, eqReq := attesterReqs()
 	p.RequireOnSuccess(r, R1a, fn, sigReq)
-
-	ctx := `cat(u16(const:3), lit:"ClientBlind")`
-	blinded := "extract<0>(call<ecdsa.BlindPublicKeyWithContext>(" + tP384 + ", " + pubKeyFrom(tP384, "param:3") + ", extract<0>(call<ecdsa.CreateKey>(" + tP384 + ", param:2)), " + ctx + "))"
-	eqReq := CallReq{
-		Desc:   "bytes.Equal(blinded client key, request key)=true",
-		Callee: nmBytesEq,
-		Check: func(t *Term) string {
-			wantEnc := "call<crypto/elliptic.MarshalCompressed>(" + tP384 + ", " + blinded + ".X, " + blinded + ".Y)"
-			a0, a1 := arg(t, 0), arg(t, 1)
-			if a0.String() == req+".RequestKey" {
-				a0, a1 = a1, a0
-			}
-			return firstNonEmpty(
-				want("compared value", a0, wantEnc),
-				want("other operand", a1, req+".RequestKey"),
-			)
-		},
-	}
 	p.RequireOnSuccess(r, R1b, fn, eqReq)
 
 	// R2: signed message == Marshal layout minus Signature
@@ -181,4 +163,29 @@ func isClientStateMap(v ssa.Value) bool {
 		return false
 	}
 	return strings.HasSuffix(typeShort(deref(fa.X.Type())), "type3.ClientState")
+}
+
+// attesterReqs: the two checks VerifyRequest must pass before accepting
+// (shared with C09, which requires them before a client is registered).
+func attesterReqs() (sigReq, eqReq CallReq) {
+	const req = "param:1"
+	sigReq = reqSignature("ecdsa.Verify(request key, SHA-384(request contents), r, s)=true", tP384, req)
+	ctx := `cat(u16(const:3), lit:"ClientBlind")`
+	blinded := "extract<0>(call<ecdsa.BlindPublicKeyWithContext>(" + tP384 + ", " + pubKeyFrom(tP384, "param:3") + ", extract<0>(call<ecdsa.CreateKey>(" + tP384 + ", param:2)), " + ctx + "))"
+	eqReq = CallReq{
+		Desc:   "bytes.Equal(blinded client key, request key)=true",
+		Callee: nmBytesEq,
+		Check: func(t *Term) string {
+			wantEnc := "call<crypto/elliptic.MarshalCompressed>(" + tP384 + ", " + blinded + ".X, " + blinded + ".Y)"
+			a0, a1 := arg(t, 0), arg(t, 1)
+			if a0.String() == req+".RequestKey" {
+				a0, a1 = a1, a0
+			}
+			return firstNonEmpty(
+				want("compared value", a0, wantEnc),
+				want("other operand", a1, req+".RequestKey"),
+			)
+		},
+	}
+	return
 }
